@@ -174,6 +174,7 @@ type Publisher struct {
 	Pub       *ipnisync.Publisher
 	HostPort  string
 	Addr      multiaddr.Multiaddr
+	Alias     multiaddr.Multiaddr
 	Discovery bool        // serve /.well-known/libp2p/protocols (libp2p-HTTP mode)
 	Chain     []cid.Cid   // ads, oldest first
 	LinkProto cidlink.LinkPrototype
@@ -225,7 +226,21 @@ func (w *World) AddPublisher(keyIdx int, discovery bool, handlerPath string) *Pu
 
 // Info returns the AddrInfo to sync this publisher with.
 func (p *Publisher) Info() peer.AddrInfo {
-	return peer.AddrInfo{ID: p.ID, Addrs: []multiaddr.Multiaddr{p.Addr}}
+	ai := peer.AddrInfo{ID: p.ID, Addrs: []multiaddr.Multiaddr{p.Addr}}
+	if p.Alias != nil {
+		ai.Addrs = append(ai.Addrs, p.Alias)
+	}
+	return ai
+}
+
+// AddAlias gives the publisher a second address (10.0.1.N:80) served by the same handler.
+func (p *Publisher) AddAlias() {
+	hp := fmt.Sprintf("10.0.1.%d:80", p.Idx+1)
+	l := p.w.net.Listen(hp)
+	srv := &http.Server{Handler: p}
+	p.w.servers = append(p.w.servers, srv)
+	go func() { _ = srv.Serve(l) }()
+	p.Alias = multiaddr.StringCast(fmt.Sprintf("/ip4/10.0.1.%d/tcp/80/http", p.Idx+1))
 }
 
 // SetHashFunc makes later blocks use the given multihash function and digest length.
